@@ -89,7 +89,9 @@ top:
 	defer aux.moo.Unlock()
 	if gmeth := aux.methods[string(key)]; gmeth != nil && 0 < len(gmeth.Combinations) {
 		comb := meth.Combinations[0]
-		gcomb := gmeth.Combinations[0]
+		// The combination in the methods map is replaced and not modified in
+		// place as a call in progress might be using it.
+		gcomb := *gmeth.Combinations[0]
 		// Just one of the daemon callers of meth should be set.
 		if comb.Primary != nil {
 			gcomb.Primary = nil
@@ -104,11 +106,14 @@ top:
 			gcomb.Wrap = nil
 		}
 		// If no more daemons in the generic method combination then remove
-		// the combination.
+		// the method.
 		if gcomb.Primary == nil && gcomb.Before == nil && gcomb.After == nil && gcomb.Wrap == nil {
-			gmeth.Combinations = gmeth.Combinations[:len(gmeth.Combinations)-1]
-			if len(gmeth.Combinations) == 0 {
-				delete(aux.methods, string(key))
+			delete(aux.methods, string(key))
+		} else {
+			aux.methods[string(key)] = &slip.Method{
+				Name:         gmeth.Name,
+				Doc:          gmeth.Doc,
+				Combinations: []*slip.Combination{&gcomb},
 			}
 		}
 		if 0 < len(aux.cache) { // clear cache
